@@ -162,6 +162,9 @@ struct PI : policy::basic_policy<
                 PI, policy::std_rtti, policy::fast_perfect_hash<PI>, policy::vptr_vector<PI>,
                 policy::basic_indirect_vptr<PI>, policy::vectored_error<PI>> {};
 
+// the indirect facet added by plain inheritance to a stock policy
+struct PJ : policy::release::rebind<PJ>, policy::basic_indirect_vptr<PJ> {};
+
 struct Thrown {
     int status;
 };
@@ -180,7 +183,8 @@ static int g_nested = -100; // result of a second call made inside a definition
 
 template<class P>
 struct W {
-    static constexpr bool indirect = P::template has_facet<policy::indirect_vptr>;
+    // what the policy IS, independently of how the library's own trait answers
+    static constexpr bool indirect = std::is_base_of_v<policy::indirect_vptr, P>;
     struct kr;
     struct kv;
     struct kc;
@@ -569,6 +573,8 @@ struct W {
             return "checked";
         else if constexpr (std::is_same_v<P, PM>)
             return "map";
+        else if constexpr (std::is_same_v<P, PJ>)
+            return "indirect-by-inheritance";
         else
             return "indirect";
     }
@@ -748,7 +754,9 @@ int main(int argc, char** argv) {
     W<PC>::run_routes();
     W<PM>::run_routes();
     W<PI>::run_routes();
+    W<PJ>::run_routes();
     W<PI>::run_histories(depth);
+    W<PJ>::run_histories(depth > 4 ? depth - 1 : depth);
     W<PD>::run_histories(depth);
     for (auto& c : g_cands)
         printf("CAND\t%s\n", c.c_str());
